@@ -123,6 +123,10 @@ func Load(repo string, extraOverlay map[string][]byte) (*World, error) {
 			return nil, err
 		}
 		w.Overlay[filepath.Join(ps.Dir, ClauseFile)] = []byte(src)
+		if d := os.Getenv("IONVC_DUMPCLAUSES"); d != "" {
+			os.MkdirAll(d, 0o755)
+			os.WriteFile(filepath.Join(d, strings.ReplaceAll(ps.Key, "/", "_")+"_"+ClauseFile), []byte(src), 0o644)
+		}
 		w.Contracts = append(w.Contracts, ok...)
 		w.specFiles[filepath.Join(ps.Dir, SpecFile)] = true
 		w.specFiles[filepath.Join(ps.Dir, ClauseFile)] = true
